@@ -172,17 +172,44 @@ def _remap_term(t, lo, bo, po):
     return t
 
 
-def view(prog, root, pick=None, depth=MAX_DEPTH):
+def is_accessor(g):
+    """A small leaf function that inspects one enum behind a reference and
+    answers with an Option/bool/reference (`Value::as_int(&self) ->
+    Option<i64>`): safe and useful to inline wherever it is called, because
+    the kind test it hides is what the decision tables are made of."""
+    if g is None or not g.full or g.is_closure or g.generated or g.from_expansion:
+        return False
+    if len(g.blocks) > 16 or g.natural_loops() or g.arg_count != 1:
+        return False
+    if not g.locals or not g.locals[1].startswith("&"):
+        return False
+    rt = g.locals[0]
+    if not (rt.startswith("std::option::Option<") or rt == "bool"):
+        return False
+    if any(not c.is_ptr and c.res in g.prog.fns and g.prog.fns[c.res].full for c in g.calls()):
+        return False
+    for bb in range(len(g.blocks)):
+        if g.term(bb)["k"] == "switch":
+            info = g.switch_info(bb)
+            if info and info["kind"] == "discr" and g.canon(info["place"])[0] == ("arg", 1):
+                return True
+    return False
+
+
+def view(prog, root, pick=None, depth=MAX_DEPTH, accessors=False):
     """Synthetic Fn: `root` with its private helpers inlined.  `pick(call)`
-    may veto individual call sites.  Returns `root` itself when nothing was
-    inlined."""
-    key = (root.path, depth, getattr(pick, "__name__", None))
+    may veto individual call sites; with `accessors`, small kind-test
+    accessors (`is_accessor`) are inlined as well, wherever they are called.
+    Returns `root` itself when nothing was inlined."""
+    key = (root.path, depth, getattr(pick, "__name__", None), accessors)
     memo = getattr(prog, "_views", None)
     if memo is None:
         memo = prog._views = {}
     if key in memo:
         return memo[key]
-    helpers = private_helpers(prog, root)
+    helpers = set(private_helpers(prog, root))
+    if accessors:
+        helpers |= {p for p, g in prog.fns.items() if is_accessor(g)}
     if not helpers or not root.full:
         memo[key] = root
         return root
@@ -211,7 +238,7 @@ def view(prog, root, pick=None, depth=MAX_DEPTH):
             continue
         if len(t["args"]) != g.arg_count:
             continue
-        if pick is not None and not pick(mir.Call(root, bb, t)):
+        if pick is not None and not (accessors and is_accessor(g)) and not pick(mir.Call(root, bb, t)):
             continue
         lo, bo, po = len(locals_), len(blocks), len(promoted)
         locals_.extend(g.locals)
